@@ -340,6 +340,38 @@ Theorem C06_mixed_evaluation_is_exact :
 Proof. exact PropMixedLazy.mixed_lazy_evaluate. Qed.
 Print Assumptions C06_mixed_evaluation_is_exact.
 
+(* ... and the premises hold in every world a growing MIXED network reaches (histories run5_ok: new properties, assignments, reads, plain
+   observers, evaluator objects, fresh properties bound immediately or through an explicit evaluator - reading any existing properties,
+   bound or not, in either mode -, evaluateAll of explicit evaluators) *)
+Theorem C06_mixed_network_caches_always_right :
+  forall fn rtl fuel ops, PropMixedLazy.run5_ok fn rtl fuel world0 ops -> PropMixedLazy.ML fn (run fn rtl fuel ops).
+Proof. exact PropMixedLazy.mixed_reachable_ML. Qed.
+Print Assumptions C06_mixed_network_caches_always_right.
+
+Theorem C06_mixed_network_evaluation_is_exact :
+  forall fn rtl fuel ops b x w',
+    PropMixedLazy.run5_ok fn rtl fuel world0 ops -> get_bind (run fn rtl fuel ops) b = Some x -> b_evp x <> 0 ->
+    binding_evaluate fn rtl (set_helper fn rtl fuel) (run fn rtl fuel ops) b = (w', None) ->
+    PropMixedLazy.ML fn w' /\ exists T t lg, PropSim.abs_tree (b_root x) = Some T /\
+      eval fn rtl (values (run fn rtl fuel ops)) (b_root x) =
+      (t, inl (PropAbs.den (PropSim.F1 fn) (PropSim.F2 fn) (PropSim.F3 fn) (PropMixedLazy.envof (run fn rtl fuel ops)) T), lg).
+Proof. exact PropMixedLazy.mixed_reachable_evaluation_exact. Qed.
+Print Assumptions C06_mixed_network_evaluation_is_exact.
+
+(* non-vacuity: 1 = f1(0) immediate, 2 = f2(1) through the evaluator, 3 = f3(2) immediate: after the assignment 1 is up to date at once,
+   2 and 3 wait; one evaluateAll brings 2 and, through it, 3 up to date *)
+Example C06_mixed_example :
+  let fn := fun (f : nat) (l : list Z) => Some (fold_right Z.add (Z.of_nat f) l) in
+  let ops := [PNew 0 1%Z; BevNew 0; PBind 1 (EOp1 1 (EProp 0)) MImmediate; PBind 2 (EOp1 2 (EProp 1)) (MEvaluator 0);
+              PBind 3 (EOp1 3 (EProp 2)) MImmediate; PSet 0 7%Z WSet] in
+  PropMixedLazy.run5_ok fn true 8 world0 (ops ++ [BevEvalAll 0]) /\
+  map (values (run fn true 8 ops)) [1; 2; 3] = [Some 8%Z; Some 4%Z; Some 7%Z] /\
+  map (values (run fn true 8 (ops ++ [BevEvalAll 0]))) [1; 2; 3] = [Some 8%Z; Some 10%Z; Some 13%Z].
+Proof.
+  split; [|split; vm_compute; reflexivity].
+  cbn [app PropMixedLazy.run5_ok PropMixedLazy.grow_op5]. repeat split; try (vm_compute; reflexivity); try (exists 1; split; [vm_compute; reflexivity|discriminate]).
+Qed.
+
 (* ---- "Bindings that were reset, replaced or destroyed are never evaluated again", for EVERY history (coq/PropReg.v) ---- *)
 (* all three end in ~Binding = destroy_binding, which leaves the binding dead ... *)
 Theorem C06_destroyed_binding_is_dead :
